@@ -45,10 +45,25 @@ c19_builds() {
   fi
 }
 
+# Second build configuration for the input-enumeration checks: the same harness and the same
+# working tree compiled for GOARCH=386 (32-bit int, uint, uintptr; the binary runs natively on
+# this machine). vcheck runs the quick tier of the check once more with it (mc.word32Pass).
+# A failing 386 build is not a failure of the check: the pass is skipped and the evidence says so.
+W32_PROPS=" C01 C02 C03 C04 C05 C06 C07 C08 C09 C10 C11 C12 C13 C14 C15 C16 C17 C18 "
+w32_build() { # w32_build <out>
+  if (cd "$H" && GOARCH=386 CGO_ENABLED=0 go build "${OV[@]}" -o "$1" ./cmd/vcheck) 2>"$1.log"; then
+    export VERIF_386_BIN="$1"
+  else
+    export VERIF_386_ERR="the GOARCH=386 build failed: $(tail -c 300 "$1.log" | tr '\n' ' ')"
+    echo "check.sh: GOARCH=386 build unavailable, the 32-bit pass is skipped" >&2
+  fi
+}
+
 cmd=${1:-}
 case "$cmd" in
   setup)
     build "$WORK/vcheck.setup" || exit 2
+    w32_build "$WORK/vcheck.setup.386"
     build "$WORK/vcheck.setup.debug" -tags debug || exit 2
     mkdir -p "$WORK/setup.c19"; c19_builds "$WORK/setup.c19"
     rm -rf "$WORK"/vcheck.setup* "$WORK/setup.c19"
@@ -60,6 +75,13 @@ case "$cmd" in
       exec "$0" $pid
     fi
     bin="$WORK/vcheck.replay.$$"
+    if grep -q '"goarch": "386"' "$2" 2>/dev/null; then
+      # a case recorded by the 32-bit pass is replayed by a 32-bit binary
+      w32_build "$bin"
+      [ -n "${VERIF_386_BIN:-}" ] || { echo "check.sh: cannot build the GOARCH=386 binary" >&2; exit 2; }
+      "$bin" -replay "$2"; rc=$?
+      rm -rf "$bin" "$bin.log"; exit $rc
+    fi
     build "$bin" || exit 2
     if grep -q '"property": "C03"' "$2" 2>/dev/null; then
       build "$bin.debug" -tags debug || exit 2
@@ -79,6 +101,7 @@ D="$WORK/$id.$$"
 mkdir -p "$D"
 trap 'rm -rf "$D"' EXIT
 build "$D/vcheck" || exit 2
+case "$W32_PROPS" in *" $id "*) w32_build "$D/vcheck.386" ;; esac
 case "$id" in
   C19)
     c19_builds "$D" ;;
